@@ -99,7 +99,12 @@ def skeleton(p: Program, fi: FuncInfo) -> EntrySkeleton:
                 names = [prm.name for prm in callee.pos_params()[1:]]
                 amap = dict(zip(names, pos))
                 amap.update(kws)
-                if not (pos and pos[0] is x and len(pos) > 1 and pos[1] is y):
+                # the carry goes to the block function's walker-state parameter and x to another one; where those
+                # parameters stand in the (private) block function's signature is its own business
+                state = [n_ for n_ in names if n_.startswith("prop_data")] or names[:1]
+                carry_to = [n_ for n_, v_ in amap.items() if v_ is x]
+                x_to = [n_ for n_, v_ in amap.items() if v_ is y]
+                if not (len(carry_to) == 1 and carry_to[0] in state and len(x_to) == 1 and x_to[0] not in state):
                     sk.problems.append("scan body does not forward (carry, x) to the block function")
                 hd_body = amap.get("ham_data")
                 wd_body = amap.get("wave_data")
@@ -259,7 +264,7 @@ def _pe(t: T, asg):
     if t0.op == "tuple":
         vals = [_pe(a, asg) for a in t0.args]
         return _UNKNOWN if any(v is _UNKNOWN for v in vals) else tuple(vals)
-    if t0.op == "phi":
+    if t0.op in ("phi", "ifexp") and len(t0.args) == 3:
         v = _eval_cond(t0.args[0], asg)
         return _UNKNOWN if v is None else _pe(t0.args[1] if v else t0.args[2], asg)
     if t0.op in ("cmp", "boolop", "unop") or (t0.op == "call" and func_name(t0) == "builtins.bool") or (
@@ -285,7 +290,7 @@ def _pe(t: T, asg):
 
 
 def _select(t: T, asg) -> Optional[T]:
-    while t.op == "phi":
+    while t.op in ("phi", "ifexp") and len(t.args) == 3:
         v = _eval_cond(t.args[0], asg)
         if v is None:
             return None
@@ -306,12 +311,20 @@ def driver_dispatch(p: Program) -> Tuple[Dict[Tuple[str, bool, bool], Tuple[str,
         if e.kind == "call" and func_name(e.data) in ("jax.jvp", "jax.vjp"):
             wrappers.add(call_parts(e.data)[1][0])
     out: Dict[Tuple[str, bool, bool], Tuple[str, Dict[str, T]]] = {}
-    if len(wrappers) != 1:
-        # all AD calls must differentiate the same (phi-selected) wrapper
-        problems.append(f"{len(wrappers)} distinct functions are differentiated in driver.afqmc")
-        if not wrappers:
-            return out, problems
-    W = sorted(wrappers, key=lambda t: t.uid)[0]
+    if not wrappers:
+        problems.append("no function is differentiated in driver.afqmc")
+        return out, problems
+
+    def arms(t):
+        if t.op in ("phi", "ifexp") and len(t.args) == 3:
+            return arms(t.args[1]) | arms(t.args[2]) | {t}
+        return {t}
+    # all AD calls must differentiate the same option-selected wrapper; inside the branch of one mode the selection may
+    # already be resolved to the arm that mode picks
+    W = max(wrappers, key=lambda t: (len(arms(t)), -t.uid))
+    stray = [w for w in wrappers if w not in arms(W)]
+    if stray:
+        problems.append(f"{len(stray) + 1} distinct functions are differentiated in driver.afqmc")
     for mode, rot, sr in product(("forward", "reverse", "2rdm"), (True, False), (True, False)):
         asg = {"ad_mode": mode, "orbital_rotation": rot, "do_sr": sr}
         leaf = _select(W, asg)
